@@ -37,6 +37,8 @@ EXPLANATION = (
     ' R10.5 also balances the nesting counters of SVG.parse (locals incremented in the start branch of a tag'
     " and decremented at its end event: inside-a-use, inside-a-clipPath): every path through the tag's start"
     ' branch that stays in the loop - the skip paths too - increments exactly once.'
+    ' R10.9: SVG.parse reifies every path outside its `except ValueError`; the nullable-point clause of C09'
+    ' R09.8 therefore runs here as well.'
 )
 TECHNIQUE = (
     "static analysis (no execution): exception-escape analysis from every element construction site (may-raise sets propagated over the call graph, subtracted at handlers); recursion guard check; push/pop path counting; result-is-root"
